@@ -175,6 +175,25 @@ TypedArgBase* ArgumentContainer::findArg( const ArgumentKey& key) const
 
 
 
+/// Searches if an argument with exactly this short or long key is defined,
+/// abbreviations are not taken into account.
+/// @param[in]  key  The short and/or long argument name to check.
+/// @return  Pointer to the argument handler object if an argument with this
+///          key is defined, NULL otherwise.
+TypedArgBase* ArgumentContainer::findExactArg( const ArgumentKey& key) const
+{
+
+   for (auto const& argi : mArguments)
+   {
+      if (argi == key)
+         return argi.data().get();
+   } // end for
+
+   return nullptr;
+} // ArgumentContainer::findExactArg
+
+
+
 /// Specifies the line length to use when printing the usage.<br>
 /// Used when this container is used to store te sub-group arguments.
 /// @param[in]  useLen  The new line length to use.<br>
